@@ -93,7 +93,7 @@ def plan(tier):
             heavy = op in ('multiply', 'divide') and Dl + Dr > 16
             jobs.append(Job('%s.%s' % (PROP, tag), kname, P_PUB, arith_contract(op, Dl, Dr, rt, tag), via=sname,
                             shim=sname, shim_types=['i32', 'i32'], oracle=orc(op, Dl, Dr, rt), prop=PROP,
-                            timeout=1200 if heavy else 600, solvers=('kissat', 'cadical') if heavy else ('minisat',), layer=3, object_bits=13, mem_gb=30,
+                            timeout=1200 if heavy else 600, solvers=('kissat', 'cadical') if heavy else ('minisat',), layer=3, object_bits=13, mem_gb=30, mem_est=10,
                             harness_pre='__CPROVER_assume((int32_t)vp_in0.f0.f0.f0.f0 >= %d && (int32_t)vp_in0.f0.f0.f0.f0 <= %d);' % (-(2 ** Dl - 1), 2 ** Dl - 1) if False else ''))
     # narrowing conversion: overflow handling iff the value leaves the destination's declared range
     for (Ds, Dd, ot) in ([(15, 7, 'sat'), (15, 7, 'trap')] if thorough else []):
@@ -138,7 +138,7 @@ def plan(tier):
         jobs.append(Job('%s.%s' % (PROP, tag), kname,
                         r'^cnl::_impl::wrapper<cnl::_impl::wrapper<.*cnl::elastic_tag<%d, .*>::wrapper<cnl::_impl::wrapper<.*cnl::elastic_tag<%d, ' % (Dd, Ds),
                         conv_contract(Ds, lim, ot), via=sname, shim=sname, shim_types=['i32'], oracle=orc2(Ds, lim, ot), prop=PROP,
-                        timeout=900, layer=3, defines=defs, skip_this=True, object_bits=13, mem_gb=30,
+                        timeout=900, layer=3, defines=defs, skip_this=True, object_bits=13, mem_gb=30, mem_est=10,
                         extra_c='#define VP_SRC (vp_in1.f0.f0.f0.f0)\n'))
     # static_number: + and * are exact on the scaled values (exponents as C01), value within declared digits
     for (D1, E1, D2, E2) in [(15, -8, 15, -8), (15, -8, 7, -2)]:
@@ -186,7 +186,7 @@ def plan(tier):
             heavy = op == 'multiply'
             jobs.append(Job('%s.%s' % (PROP, tag), kname, r'^auto cnl::_impl::operator[-+*/]<cnl::_impl::wrapper<', sn_contract(op, D1, E1, D2, E2, tag), via=sname,
                             shim=sname, shim_types=['i32', 'i32'], oracle=orc3(op, D1, E1, D2, E2), prop=PROP, layer=3, object_bits=13,
-                            timeout=900 if heavy else 300, solvers=('kissat', 'cadical') if heavy else ('minisat',)))
+                            timeout=900, solvers=('kissat', 'cadical') if heavy else ('minisat', 'cadical'), mem_gb=30, mem_est=10))
     k = Kernel(kname, ''.join(src), [], 'static_integer / static_number')
     meta = {'instantiations': len(jobs),
             'explanation': 'public operators of the composite types with the whole layer tower inlined; exact-or-signalled postconditions plus the type invariant of the result (induction step for operation chains)',
